@@ -18,7 +18,19 @@
 (*        angle with |sin| >= 1e-2 at the construction point                  *)
 (*   coin+ / coin-: the same geodesic, parallel / antiparallel                *)
 (*   near: nearly parallel (NearlyParallelFree: only on-both-lines is         *)
-(*        demanded), coin (segments cut from one geodesic, likewise)          *)
+(*        demanded)                                                           *)
+(*   coin: segments cut from one geodesic with Direct (coincident up to        *)
+(*        round-off); coinx+ / coinx-: pieces of the equator or of one        *)
+(*        meridian given by coordinates (EXACTLY coincident), parallel /       *)
+(*        antiparallel.  For these ovq = length of the overlap of the two      *)
+(*        pieces (negative: of the gap between them) in ppm of X, computed     *)
+(*        from the inputs.  Intersect.hpp: segmode is "an indicator equal to   *)
+(*        zero if the segments intersect" and the result "the intersection     *)
+(*        point if the segments intersect": overlapping pieces intersect, so   *)
+(*        segmode = 0 (and by segmode-definition the answer lies inside        *)
+(*        both); pieces separated by a gap have no common point, segmode # 0.  *)
+(*        OvlMargin: pieces that overlap / are apart by less than 0.1 % of X   *)
+(*        may be classified either way (SegEdgeFree).                          *)
 (*                                                                          *)
 (* TOLERANCES.  TolOn = separation of X(x) and Y(y): two positions of the     *)
 (* documented accuracy (Geodesic.hpp 15/25/30 nm; GeodesicExact.hpp "about    *)
@@ -32,6 +44,7 @@
 EXTENDS GeodProjLaws
 
 CONSTANTS SnCoin,        \* 1e-9: |sin| of the angle between headings that "lie on top of one another"
+          OvlMargin,     \* ppm of the length of X: overlaps / gaps of coincident segments shorter than this are edge cases
           DupSep         \* nm: two listed intersections closer than this (across the lines) are the same intersection
 
 \* ellipsoid family of the intersection records: 1/298, 0, -1/298, +-0.01, +-0.02 (series), 0.1, -0.1, 0.2, -0.25 (exact)
@@ -45,12 +58,16 @@ Crossing(r) == r.mk \in {"gen", "merid2", "corner"}
 \* "if the geodesics lie on top of one another at the point of intersection, then c is set to +1, if they are parallel, and
 \*  -1, if they are antiparallel"; distinct crossing geodesics give 0; on one and the same geodesic a transversal
 \* self-crossing (c = 0) may also be the closest
+\* the equator and the meridians are simple closed geodesics (no transversal self-crossing): pieces of them lie on top of one
+\* another wherever they meet, c = +1 / -1 exactly
 CoinOK(r) ==
   /\ r.c \in {-1, 0, 1}
   /\ r.c # 0 => r.sn <= SnCoin /\ (r.anti = 1) = (r.c < 0)
   /\ Crossing(r) => r.c = 0
   /\ r.mk = "coin+" => r.c >= 0
   /\ r.mk = "coin-" => r.c <= 0
+  /\ r.mk = "coinx+" => r.c = 1
+  /\ r.mk = "coinx-" => r.c = -1
 
 Common(r) ==
   F("no-exception", r.out = "ok" /\ r.aout = "ok" /\ r.fin)
@@ -62,14 +79,30 @@ Common(r) ==
 Minimal(r) == r.na >= 1 /\ r.dminc >= -TolMin(r) /\ Le(r.inallc, TolMin(r))
 
 \* (for an answer on coincident geodesics, c # 0, the crossing angle vanishes and the comparison is void: the minimality of
-\*  coincident answers is decided exactly on the lattice sphere, records ic)
-XcFails(r) == Common(r) \o F("closest-minimises-L1", Strong(r) /\ r.c = 0 => Minimal(r))
+\*  coincident answers is decided exactly on the lattice sphere, records ic.  The same holds for an answer with c = 0 at which the
+\*  headings of ONE geodesic taken twice are parallel to SnCoin: lines that coincide only up to the round-off of their starting data
+\*  are two distinct, nearly parallel geodesics - NearlyParallelFree; a transversal crossing of two branches has a finite angle)
+Transversal(r) == r.c = 0 /\ (r.mk \in {"coin+", "coin-"} => r.sn > SnCoin)
+XcFails(r) == Common(r) \o F("closest-minimises-L1", Strong(r) /\ Transversal(r) => Minimal(r))
 
 \* "The returned intersection minimizes Dist(p) (excluding p = [0,0])"
+\* One geodesic taken twice from one point (mk = coin+ / coin-, cc = +1 / -1): X(x) and Y(y) are the same point of the same BRANCH
+\* exactly when y = cc x (lin = |y - cc x|, nm at WGS84 scale); there the lines "lie on top of one another" - c = cc, not 0.  (Another
+\* branch of the same geodesic may cross transversally, c = 0, also at a tiny angle when the geodesic nearly closes; then y # cc x.)
+SameBranchOK(r) == r.mk \in {"coin+", "coin-"} /\ r.lin >= 0 /\ r.lin <= TolMin(r) => r.c = (IF r.mk = "coin+" THEN 1 ELSE -1)
 XnFails(r) ==
   Common(r)
+  \o F("coincidence-indicator-on-the-same-branch", SameBranchOK(r))
   \o F("next-excludes-origin", r.d0m >= 1000)
-  \o F("next-minimises-L1", Strong(r) /\ r.c = 0 => Minimal(r))
+  \o F("next-minimises-L1", Strong(r) /\ Transversal(r) => Minimal(r))
+
+\* the observations of a Next call that carry no statement about c and minimality (emitted as a record of their own for the input
+\* class of a known finding, so that its label does not cover them)
+XoFails(r) ==
+  F("no-exception", r.out = "ok" /\ r.fin)
+  \o F("interfaces-agree", r.same)
+  \o F("on-both-lines", Le(r.z, TolOn(r) + 2 * r.um))
+  \o F("next-excludes-origin", r.d0m >= 1000)
 
 \* segmode = 3 kx + ky, kx = -1 if x < 0, 0 if 0 <= x <= sx, 1 if sx < x (x0 = sign x, x1 = sign (x - sx), exact)
 Kc(s0, s1) == IF s0 < 0 THEN -1 ELSE IF s1 <= 0 THEN 0 ELSE 1
@@ -79,6 +112,10 @@ XsFails(r) ==
   \o F("segment-answer-is-an-intersection", Crossing(r) => r.na >= 1 /\ Le(r.inallc, TolMin(r)))
   \* "the intersection point if the segments intersect, otherwise the intersection point closest to the midpoints"
   \o F("segments-do-not-intersect", Crossing(r) /\ r.segmode # 0 => r.insmax <= TolMin(r) /\ r.dminc >= -TolMin(r))
+  \* (not for mk = "coin": end points rounded to doubles define two distinct, nearly parallel geodesics, which need not meet inside
+  \*  the overlap at all - NearlyParallelFree)
+  \o F("overlapping-segments-intersect", r.mk \in {"coinx+", "coinx-"} /\ r.ovq >= OvlMargin => r.segmode = 0)
+  \o F("disjoint-segments-do-not-intersect", r.mk \in {"coinx+", "coinx-"} /\ r.ovq <= -OvlMargin => r.segmode # 0)
 
 XaFails(r) ==
   F("no-exception", r.out = "ok" /\ r.out2 = "ok" /\ r.outc = "ok" /\ r.fin)
